@@ -56,7 +56,7 @@ class Result:
         return self
 
 
-PYL_OPS = {"cksum", "isvalid", "inputmode", "protocol", "getbits", "parse", "readp", "cfgset", "cfgdel", "cfgpoll", "construct"}
+PYL_OPS = {"cksum", "isvalid", "inputmode", "protocol", "getbits", "parse", "readp", "cfgset", "cfgdel", "cfgpoll", "construct", "cfgkey"}
 PYL_MAX = 25000
 PYL_MAX_READP = 4000      # whole reader runs: `__next__` → `read` → `_parse_*` / `_do_error` interpreted per pass
 
